@@ -663,6 +663,8 @@ class Interp:
     def call_repo(self, qual, fnode, args, kwargs, node, bound=False):
         """call of a function / method defined in the repository: contract if there is one, inline if allowed."""
         c = self.contracts.get(qual)
+        if self.tc is not None and qual in getattr(self.tc, "overrides", {}):
+            c = self.tc.overrides[qual]
         inline_all = getattr(self.ctx.run, "inline_all", False)
         if c is not None and qual != self.self_qual and not c.inline_only and not inline_all:
             return self.ctx.call_contract(self, c, fnode, args, kwargs, node)
